@@ -612,7 +612,8 @@ func (state *BuildState) LogBuildError(label BuildLabel, status BuildResultStatu
 // logResult logs a build result directly to the state's queue.
 func (state *BuildState) logResult(result *BuildResult) {
 	result.Time = time.Now()
-	state.progress.internalResults <- result
+	// Record the failure before publishing the result: whoever sees the result may stop the build and read
+	// Failures() straight away.
 	if result.Status.IsFailure() {
 		state.progress.failed.Store(true)
 		switch result.Status {
@@ -622,6 +623,7 @@ func (state *BuildState) logResult(result *BuildResult) {
 			state.progress.testFailed.Store(true)
 		}
 	}
+	state.progress.internalResults <- result
 }
 
 // forwardResults runs indefinitely, forwarding results from the internal
